@@ -220,6 +220,34 @@ theorem mac_slot_exact (macs : List Nat) (neg : Bool) (a : Nat) (hm : ∀ m ∈ 
     · cases neg <;> simp [h]
     · subst hn; subst h0; simp
 
+/-- **DNS response `ip()` sets.** For every list of response rules `[!]ip(prefixes) -> accept|reject`
+and every list of answer addresses, the matcher (one trie per rule, an answer address hits when the
+trie holds one of its prefixes) decides as the first rule whose condition holds under CIDR
+containment — every rule is judged against ITS OWN address set. -/
+theorem dns_ip_rules_by_containment (rules : List DnsIpRule) (answers : List Nat)
+    (hwf : ∀ r ∈ rules, ∀ p ∈ r.ps, p.WF) (ha : ∀ a ∈ answers, a < 2 ^ 128) :
+    dnsIpMatch rules answers = dnsIpSpec rules answers := by
+  induction rules with
+  | nil => rfl
+  | cons r rs ih =>
+    have hr : ∀ p ∈ r.ps, p.WF := hwf r (by simp)
+    have hcond : (answers.any fun a => trieMatch r.ps a) = decide (∃ a ∈ answers, ∃ p ∈ r.ps, contains p a) := by
+      rw [Bool.eq_iff_iff, List.any_eq_true, decide_eq_true_iff]
+      constructor
+      · rintro ⟨a, haa, h⟩; exact ⟨a, haa, (trie_matches_iff_contained r.ps a hr (ha a haa)).mp h⟩
+      · rintro ⟨a, haa, h⟩; exact ⟨a, haa, (trie_matches_iff_contained r.ps a hr (ha a haa)).mpr h⟩
+    simp only [dnsIpMatch, dnsIpSpec, hcond]
+    rw [ih (fun r' hr' => hwf r' (by simp [hr']))]
+
+/-- non-vacuity: `ip(10.0.0.0/8) -> reject ; !ip(2001:db8::/32) -> reject`: 10.1.2.3 is rejected by the
+first rule, 2001:db8::1 falls through both (accepted), 8.8.8.8 is rejected by the negated rule. -/
+example : dnsIpMatch [⟨false, true, [⟨true, mapped4 0x0a000000, 8⟩]⟩, ⟨true, true, [⟨false, 0x20010db8 * 2 ^ 96, 32⟩]⟩]
+      [mapped4 0x0a010203] = true ∧
+    dnsIpMatch [⟨false, true, [⟨true, mapped4 0x0a000000, 8⟩]⟩, ⟨true, true, [⟨false, 0x20010db8 * 2 ^ 96, 32⟩]⟩]
+      [0x20010db8 * 2 ^ 96 + 1] = false ∧
+    dnsIpMatch [⟨false, true, [⟨true, mapped4 0x0a000000, 8⟩]⟩, ⟨true, true, [⟨false, 0x20010db8 * 2 ^ 96, 32⟩]⟩]
+      [mapped4 0x08080808] = true := by decide
+
 -- a colliding hash really exercises the collision branch: constant hash, two different sets
 example : (Builder.addAll (fun _ => 7) Builder.empty
     [[⟨true, mapped4 1, 32⟩], [⟨true, mapped4 2, 32⟩], [⟨true, mapped4 1, 32⟩]]).2 = [0, 1, 2] := by decide
